@@ -1,6 +1,7 @@
 // C09: runs the REAL check_type twice on each case (verdict and step count must repeat), reports
 // the work-loop step count from the `verif` hook, and -- for `chain`/`bigchain` cases -- runs the
-// check of an n-link reference chain against a recursive named type in a 256 KiB-stack thread.
+// check of an n-link reference chain (well-typed, or `dchain`: with an ill-typed last element)
+// against a recursive named type in a 256 KiB-stack thread.
 //   output: <verdict> steps=<n> rerun=<same|DIFF>
 #[path = "../tc_common.rs"]
 mod tc_common;
@@ -26,6 +27,40 @@ fn chain_line(n: usize, cyc: bool) -> String {
     s
 }
 
+/// `dchain n shape` / `bigdchain n shape`: the same kind of chain whose LAST element is ill-typed
+/// (twin of `dchainCase` in lean/Driver/C09.lean):
+///   arr : i 0 obj [ (i+1) 0 R ]          against t = [ t* ]                last: n 0 obj 7
+///   dict: i 0 obj << /Next (i+1) 0 R >>  against node = << /Next node? >>  last: << /Next 7 >>
+///   dis : i 0 obj [ (i+1) 0 R ]          against t = [ (leaf | t)* ], leaf = Name   last: n 0 obj 7
+fn dchain_line(n: usize, shape: &str) -> String {
+    let mut s = String::new();
+    if shape == "dict" {
+        s.push_str("c09 1 node r - a dict 1 4e657874 o n node - ");
+        s.push_str(&format!("{} ", n));
+        for i in 1 ..= n {
+            if i < n {
+                s.push_str(&format!("{} 0 D 1 4e657874 R {} 0 ", i, i + 1));
+            } else {
+                s.push_str(&format!("{} 0 D 1 4e657874 I 7 ", i));
+            }
+        }
+        s.push_str("n node R 1 0");
+    } else {
+        let elem = if shape == "dis" { "r - a dis 2 n leaf n t" } else { "n t" };
+        s.push_str(&format!("c09 2 t r - a arr - {} leaf r - a p n ", elem));
+        s.push_str(&format!("{} ", n));
+        for i in 1 ..= n {
+            if i < n {
+                s.push_str(&format!("{} 0 A 1 R {} 0 ", i, i + 1));
+            } else {
+                s.push_str(&format!("{} 0 I 7 ", i));
+            }
+        }
+        s.push_str("n t R 1 0");
+    }
+    s
+}
+
 fn run_twice(line: &str) -> String {
     let c = match tc_common::decode(line) {
         None => return "bad-case".to_string(),
@@ -42,10 +77,10 @@ pub fn run(line: &str) -> String { tc_common::guarded(line, run_direct) }
 
 fn run_direct(line: &str) -> String {
     let w: Vec<&str> = line.split_whitespace().collect();
-    if w.len() == 3 && (w[0] == "chain" || w[0] == "bigchain") {
+    let deep = w.len() == 3 && (w[0] == "dchain" || w[0] == "bigdchain");
+    if deep || (w.len() == 3 && (w[0] == "chain" || w[0] == "bigchain")) {
         let n: usize = w[1].parse().unwrap();
-        let cyc = w[2] == "cyc";
-        let l = chain_line(n, cyc);
+        let l = if deep { dchain_line(n, w[2]) } else { chain_line(n, w[2] == "cyc") };
         // small stack: a recursive implementation would overflow (and kill the worker => crash:<rc>)
         let h = std::thread::Builder::new()
             .stack_size(256 * 1024)
